@@ -64,6 +64,10 @@ def run_verus(path, timeout=600, rlimit=None):
             'stderr_other': other[:50], 'cmd': ' '.join(cmd)}
 
 
+VERIF_FAIL_RX = re.compile(r'not satisfied|assertion failed|possible arithmetic|possible division|possible bit shift|'
+                           r'could not prove termination|decreases|may fail to meet|unable to prove|might not|unreachable')
+
+
 def interpret(u, text, res):
     """-> dict(failed={oid: [msgs]}, undecided=[reasons], verified=n, errors=n)"""
     tab = vxgen.span_table(text)
@@ -76,6 +80,8 @@ def interpret(u, text, res):
     if js is None:
         undecided.append('no JSON result from verus (rc=%s): %s' % (res.get('rc'), ' | '.join(res['stderr_other'][:5])))
     vr = (js or {}).get('verification-results', {})
+    if js is not None and (vr.get('encountered-vir-error') or (vr.get('verified', 0) + vr.get('errors', 0) == 0)):
+        undecided.append('verus did not reach verification (compile / mode / subset error)')
     for d in res['diags']:
         if d.get('level') != 'error':
             continue
@@ -100,6 +106,12 @@ def interpret(u, text, res):
             target = prim[0]
         else:
             target = prim[0]
+        if re.search(r'rlimit|resource limit|timed out|timeout', low):
+            undecided.append('solver resource limit: ' + msg)
+            continue
+        if not VERIF_FAIL_RX.search(low):
+            undecided.append('not a verification result (construct outside the Verus subset, mode or type error): %s (line %s)' % (msg[:160], target.get('line_start')))
+            continue
         cl = vxgen.classify(tab, target['byte_start'])
         detail = '%s (line %d: %s)' % (msg, target['line_start'], (target.get('text') or [{}])[0].get('text', '').strip()[:100])
         if cl is None:
@@ -124,10 +136,7 @@ def interpret(u, text, res):
             fid = encl[0][3] if encl else '?'
             failed.setdefault(fid + '/body', []).append('ghost hint no longer holds: ' + detail)
         else:  # FN
-            if any(k in low for k in ('not supported', 'unsupported', 'cannot find', 'mismatched types', 'expected', 'unresolved', 'no method', 'the verifier does not')):
-                undecided.append('construct outside the Verus subset or compile error: ' + detail)
-            else:
-                failed.setdefault(oid + '/body', []).append(detail)
+            failed.setdefault(oid + '/body', []).append(detail)
     smt = 0
     try:
         smt = js['times-ms']['smt']['smt-run']
